@@ -123,7 +123,9 @@ static boost::uuids::uuid mk(int kind, int i) {
   snprintf(buf, sizeof buf, "00000000-0000-0000-%04x-%012x", kind, i);
   return boost::uuids::string_generator()(std::string(buf));
 }
-static const char *MODES[] = {"bus", "rail", "transferable"};
+// modes 0 and 1 are two entries of the server's own table that share one extended GTFS route type (tram / tramTrain: 900), so that a
+// comparison of modes by anything but their name shows (seeded change C02-r5)
+static const char *MODES[] = {"tram", "tramTrain", "transferable"};
 
 struct DS {
   int nstops = 0;
@@ -145,6 +147,8 @@ struct Fetch : DataFetcher {
   const std::map<std::string, Mode> getModes() override {
     std::map<std::string, Mode> m;
     m.emplace("bus", Mode("bus", "Bus", 3, 700));
+    m.emplace("tram", Mode("tram", "Tram/LRT", 0, 900));
+    m.emplace("tramTrain", Mode("tramTrain", "Tram Train", 0, 900));
     m.emplace("rail", Mode("rail", "Rail", 2, 100));
     m.emplace(Mode::TRANSFERABLE, Mode(Mode::TRANSFERABLE, "Transferable", -1, -1));
     return m;
